@@ -32,3 +32,55 @@ Proof. vm_compute. split; reflexivity. Qed.
 
 Print Assumptions C01_eval.
 Print Assumptions C01_comparison.
+
+(** ** from the text: every marker text derivable from the grammar - any optional white space, redundant
+    parentheses, either quote, both operand orders, `not in` with any blank - is parsed to the typed
+    syntax tree [ast_of] of its derivation ([Text/MarkerAccept.v]; [msrc] = derivations with explicit
+    blanks, [wf] = the grammar's shape and token-adjacency conditions); together with [C01_eval] the
+    parsed diagram evaluates to the direct reading of the text.  The hypotheses on the character classes
+    say that white space contains no token character, that `i`, `n` are alphabetic and the operator
+    symbols are not, that the letters of `and` / `or` are word characters and `(`, `)`, quotes are not. *)
+From PV Require Import Text.Cursor Text.MarkerParse Text.MarkerAccept.
+Section Text.
+Variables ws alpha alnum : N -> bool.
+Variable kw : list (text * mvalue).
+Variable vparse : text -> option rawversion.
+Variables specpat specver : vop -> text -> option (vop * list N).
+Variables pv pfv : N.
+Hypothesis Hws_wc : forall x, word_char alnum x = true -> ws x = false.
+Hypothesis Hws_delims : forall x, In x [34;39;40;41;60;61;62;126;33] -> ws x = false.
+Hypothesis Hws_it : ws 105 = false /\ ws 116 = false.
+Hypothesis Halpha_in : alpha 105 = true /\ alpha 110 = true.
+Hypothesis Halpha_sym : forall x, In x [60;61;62;126;33] -> alpha x = false.
+Hypothesis Halnum_kw : forall x, In x [97;110;100;111;114] -> alnum x = true.
+Hypothesis Halnum_delims : forall x, In x [40;41;34;39] -> alnum x = false.
+
+Theorem C01_text_accept (m : msrc) (w : text) : wf ws kw m -> blank ws w ->
+  parse_markers ws alpha alnum kw vparse specpat specver pv pfv (msrc_text m ++ w) =
+  POk (compile pv pfv (ast_of ws kw vparse specpat specver m), warns_of ws kw vparse specpat specver m).
+Proof.
+  exact (parse_markers_accept ws alpha alnum kw vparse specpat specver pv pfv Hws_wc Hws_delims Hws_it Halpha_in Halpha_sym Halnum_kw Halnum_delims m w).
+Qed.
+
+Theorem C01_text_eval (m : msrc) (w : text) (e : penv) (X Y Z : N) : wf ws kw m -> blank ws w ->
+  pfv <> pv -> pe_release e pfv = [X; Y; Z] -> ast_in_scope pv (ast_of ws kw vparse specpat specver m) ->
+  exists t wk, parse_markers ws alpha alnum kw vparse specpat specver pv pfv (msrc_text m ++ w) = POk (t, wk) /\
+    m_eval (env_of_penv e) (pe_extras e) t = sem508 pv pfv e (ast_of ws kw vparse specpat specver m).
+Proof.
+  intros W B Hne Hrel Hsc. eexists. eexists. split; [exact (C01_text_accept m w W B)|].
+  exact (C01_eval pv pfv e X Y Z _ Hne Hrel Hsc).
+Qed.
+
+(** layout is irrelevant: the result is a function of the syntax tree alone *)
+Theorem C01_layout_irrelevant (m m' : msrc) (w w' : text) : wf ws kw m -> wf ws kw m' -> blank ws w -> blank ws w' ->
+  ast_of ws kw vparse specpat specver m = ast_of ws kw vparse specpat specver m' ->
+  warns_of ws kw vparse specpat specver m = warns_of ws kw vparse specpat specver m' ->
+  parse_markers ws alpha alnum kw vparse specpat specver pv pfv (msrc_text m ++ w) =
+  parse_markers ws alpha alnum kw vparse specpat specver pv pfv (msrc_text m' ++ w').
+Proof.
+  intros W W' B B' Ea Ew. rewrite (C01_text_accept m w W B), (C01_text_accept m' w' W' B'), Ea, Ew. reflexivity.
+Qed.
+End Text.
+Print Assumptions C01_text_accept.
+Print Assumptions C01_text_eval.
+Print Assumptions C01_layout_irrelevant.
